@@ -366,7 +366,12 @@ class Interp:
             cache[key] = val
             return True, val
         if name in info.attrs:
-            return True, self.eval(info.attrs[name], Env(), info.module, owner=cls)
+            # class-level assignments are evaluated once (identity of e.g. sentinel classes matters)
+            key = ("cval", info.module.relpath, info.name, name)
+            cache = self.__dict__.setdefault("_cattr_cache", {})
+            if key not in cache:
+                cache[key] = self.eval(info.attrs[name], Env(), info.module, owner=cls)
+            return True, cache[key]
         for b in info.bases:
             bv = self.eval(b, Env(), info.module)
             if isinstance(bv, ClassObj):
@@ -445,7 +450,13 @@ class Interp:
             self.ctx.heap[name] = z3.Const(name + "0", z3.ArraySort(V, sort))
         return self.ctx.heap[name]
 
-    def instance_getattr(self, obj, name):
+    HONOR_GETATTRIBUTE = ("DataFrame", "GeoJSON")
+
+    def instance_getattr(self, obj, name, plain=False):
+        if not plain and any(isinstance(c, ClassObj) and c.name in self.HONOR_GETATTRIBUTE for c in self.mro(obj.cls)):
+            ok, ga = self.class_attr(obj.cls, "__getattribute__")
+            if ok:
+                return self.call(ga, [obj, name], {})
         href = getattr(obj, "href", None)
         if href is not None and name in self.HEAP_FIELDS:
             hn, srt = self.HEAP_FIELDS[name]
@@ -469,6 +480,8 @@ class Interp:
             return self.bind(cv, obj)
         if name == "__class__":
             return obj.cls
+        if name == "__dict__":
+            return obj.attrs
         bt = self.base_type(obj.cls)
         if bt is not None and name in bt.methods:
             return BoundMethod(bt.methods[name], obj)
